@@ -171,6 +171,17 @@ template <class F> static int attack_file(const char *what, const std::string &g
     if (!accepted_file(good, import)) { printf("%s (FILE): the unmodified export is not importable (oracle self-check)\n", what); return 1; }
     return 0;
 }
+// text sections: every proper prefix of a pure-text export (every crash point of the writer), both transports
+static int g_nl_only = 0;    // mode C18nl: only the prefix that lacks nothing but the final newline, C++ stream transport (recorded finding, reported separately)
+template <class FS, class FF> static int text_prefixes(const char *what, const std::string &good, FS import_stream, FF import_file) {
+    if (g_nl_only) { if (accepted(good.substr(0, good.size() - 1), import_stream)) { printf("%s: the text export without its final newline (%zu of %zu bytes) is imported normally, stream not failed (eofbit only)\n", what, good.size() - 1, good.size()); return 1; } return 0; }
+    for (size_t len = 0; len < good.size(); len++) {
+        if (len + 1 < good.size() && accepted(good.substr(0, len), import_stream)) { printf("%s: truncated text section (%zu of %zu bytes) is imported normally with a clean stream\n", what, len, good.size()); return 1; }
+        if (accepted_file(good.substr(0, len), import_file)) { printf("%s (FILE): truncated text section (%zu of %zu bytes) is imported and the process goes on\n", what, len, good.size()); return 1; }
+    }
+    if (!accepted(good, import_stream) || !accepted_file(good, import_file)) { printf("%s: the unmodified text export is not importable (oracle self-check)\n", what); return 1; }
+    return 0;
+}
 static size_t binpos(const std::string &s, int32_t tag) { for (size_t i = s.size() >= 4 ? s.size() - 4 : 0; ; i--) { int32_t v; memcpy(&v, s.data() + i, 4); if (v == tag && (i == 0 || s[i - 1] == '\n')) return i; if (i == 0) break; } return std::string::npos; }
 static int mistyped() {
     LweParams *lp = new_LweParams(5, 0.25, 0.5); TLweParams *tp = new_TLweParams(8, 2, 0.25, 0.5); TGswParams *gp = new_TGswParams(2, 8, tp);
@@ -180,6 +191,10 @@ static int mistyped() {
     LweKey *lk = new_LweKey(lp); for (int i = 0; i < 5; i++) lk->key[i] = i % 2;
     TLweKey *tk = new_TLweKey(tp); TGswKey *gk = new_TGswKey(gp); for (int q = 0; q < 2; q++) for (int j = 0; j < 8; j++) tk->key[q].coefs[j] = gk->key[q].coefs[j] = (q + j) % 2;
     LweKeySwitchKey *ks = new_LweKeySwitchKey(3, 2, 1, lp); for (int i = 0; i < 3; i++) for (int j = 0; j < 2; j++) for (int h = 0; h < 2; h++) { for (int p = 0; p < 5; p++) ks->ks[i][j][h].a[p] = i * 100 + j * 10 + h + p; ks->ks[i][j][h].b = 5; ks->ks[i][j][h].current_variance = 0.01; }
+    { std::ostringstream o; export_lweParams_toStream(o, lp); if (text_prefixes("LWE parameters", o.str(), [&](std::istream &in) { (void)new_lweParams_fromStream(in); }, [&](FILE *f) { (void)new_lweParams_fromFile(f); })) return 1; }
+    { std::ostringstream o; export_tLweParams_toStream(o, tp); if (text_prefixes("TLWE parameters", o.str(), [&](std::istream &in) { (void)new_tLweParams_fromStream(in); }, [&](FILE *f) { (void)new_tLweParams_fromFile(f); })) return 1; }
+    { std::ostringstream o; export_tGswParams_toStream(o, gp); if (text_prefixes("TGSW parameters", o.str(), [&](std::istream &in) { (void)new_tGswParams_fromStream(in); }, [&](FILE *f) { (void)new_tGswParams_fromFile(f); })) return 1; }
+    if (g_nl_only) return 0;
     { std::ostringstream o; export_lweSample_toStream(o, ls, lp); LweSample *d = new_LweSample(lp); if (attack("LWE sample", o.str(), 0, [&](std::istream &in) { import_lweSample_fromStream(in, d, lp); })) return 1; }
     { std::ostringstream o; export_tlweSample_toStream(o, ts, tp); TLweSample *d = new_TLweSample(tp); if (attack("TLWE sample", o.str(), 0, [&](std::istream &in) { import_tlweSample_fromStream(in, d, tp); })) return 1; }
     { std::ostringstream o; export_lweSample_toStream(o, ls, lp); LweSample *d = new_LweSample(lp); if (attack_file("LWE sample", o.str(), [&](FILE *f) { import_lweSample_fromFile(f, d, lp); })) return 1; }
@@ -193,6 +208,7 @@ static int mistyped() {
     return 0;
 }
 int main(int argc, char **argv) {
+    if (argc > 1 && !strcmp(argv[1], "C18nl")) { g_nl_only = 1; return mistyped(); }
     if (argc > 1 && !strcmp(argv[1], "C18")) return mistyped();
     if (!(argc > 1 && !strcmp(argv[1], "C05text")) && standalone()) return 1;
     if (argc > 1 && !strcmp(argv[1], "C05text")) return textlayer();
